@@ -420,3 +420,72 @@ def c03_monitor(case, frames):
         if b not in ids and n > 0:
             return ("bar %d was flushed in the last cycle but has no row in the last frame" % b, "bar-missing-from-last-frame")
     return None
+
+
+# ------------------------------------------------------------------ C14 / C15 / C16
+def c16_monitor(case, frames):
+    for seq, k, a in events(case):
+        if k == "LEAK" and a[0] != "0":
+            return ("%s goroutine(s) with a library frame are still alive after Wait returned and a settle period" % a[0],
+                    "goroutine-leak-after-render-error" if case["cfg"][8] != "-" else "goroutine-leak")
+    return None
+
+
+def c14_monitor(case, frames):
+    evs = events(case)
+    cancelled = any(k == "CL_CANCEL" for _, k, a in evs)
+    waited = any(k == "RET_WAIT" for _, k, a in evs)
+    if not waited:
+        return None
+    ops = {}
+    for seq, k, a in evs:
+        if k == "SHUTDOWN" and a[1] != "1":
+            return ("shutdown listener of bar %s was notified %s times" % (a[0], a[1]), "shutdown-listener-count")
+        if k == "FINAL":
+            b, cur, comp, ab, run = a[0], int(a[1]), a[2] == "1", a[3] == "1", a[4] == "1"
+            if run:
+                return ("bar %s still reports IsRunning after Wait" % b, "running-after-wait")
+            if comp == ab:
+                return ("bar %s reports Completed=%s Aborted=%s after Wait" % (b, comp, ab), "not-exactly-one-after-wait")
+    if case["cfg"][7] == "1":
+        n = sum(1 for _, k, a in evs if k == "NOTIFY")
+        if n != 1:
+            return ("shutdown notifier delivered %d values" % n, "notifier-count")
+    return None
+
+
+def c15_monitor(case, frames):
+    evs = events(case)
+    fault = case["cfg"][8]
+    if fault == "-":
+        return None
+    fired = [seq for seq, k, a in evs if k in ("FAULT", "OUTERR")]
+    if not fired:
+        return None
+    t0 = fired[0]
+    for seq, k, a in evs:
+        if k == "HANG":
+            # which goroutines are stuck is in the .stacks file; classify by what the scenario contains
+            syncs = any(int(l.split()[9]) > 0 for l in case["hdr"][1:])
+            sig = "hang-after-render-error-with-width-sync" if syncs else "hang-after-render-error"
+            return ("hang (%s) after an injected render error" % " ".join(a), sig)
+    dbg = [a for seq, k, a in evs if k == "DBG"]
+    if len(dbg) != 1:
+        return ("the render error was reported %d times to the debug output: %s" % (len(dbg), dbg), "error-report-count")
+    if "injected" not in " ".join(dbg[0]):
+        return ("debug output does not carry the error: %s" % dbg, "error-report-text")
+    err_seq = [seq for seq, k, a in evs if k == "CT_RENDERERR"]
+    done_seq = [seq for seq, k, a in evs if k == "CT_DONE"]
+    if not err_seq and done_seq and done_seq[0] < t0:
+        err_seq = [t0]      # the fault hit the final render at shutdown: reported there, nothing latched
+    if not err_seq:
+        return ("no render error was recorded by the container although a fault fired", "error-not-latched")
+    for seq, k, a in evs:
+        if seq > err_seq[0] and k in ("CT_RENDERBEGIN", "OUT"):
+            return ("%s at event %d after the render error at event %d" % (k, seq, err_seq[0]), "frame-after-error")
+    if not any(k == "RET_WAIT" for _, k, a in evs):
+        return ("Wait did not return after the render error", "wait-after-error")
+    for seq, k, a in evs:
+        if k == "FINAL" and a[4] == "1":
+            return ("bar %s still running after the error shut the container down" % a[0], "running-after-error")
+    return None
